@@ -72,7 +72,7 @@ class C18(Property):
         if rnd.random() < 0.02:
             return dict(kind=kind, broadcast=[rnd.randint(2, 4), rnd.randint(2, 4)])
         return dict(kind=kind, a=a, b=b, prod=rnd.choice(specs), cons=rnd.choice(specs), cons_grid_unset=rnd.random() < 0.15,
-                    prod_grid_unset=rnd.random() < 0.1, seed=seed)
+                    prod_grid_unset=rnd.random() < 0.1, seed=seed, alias=rnd.random() < 0.15)
 
     # --------------------------------------------------------------------------------
     def run(self, spec):
@@ -246,6 +246,12 @@ class C18(Property):
             cm = mk(spec["cons"], a)
         if prod_unset:
             pm = mk(spec["prod"], b)
+        if spec.get("alias") and prod_fixed and cons_fixed and not cons_unset and not prod_unset and np.shape(pm) == np.shape(cm) and np.shape(pm) != ():
+            # both sides hold the very same array object (e.g. one info made from the other): what counts is still which
+            # cells it masks in each side's own layout
+            cm = pm
+            expect = bool(np.array_equal(pm, mk("A" if spec["prod"] in ("A", "A2") else ("B" if spec["prod"] == "B" else spec["prod"]), b)))
+            out.count("same_mask_object_on_both_sides")
         pinfo = fm.Info(time=slots.T0, grid=None if prod_unset else ga, units="m", mask=pm)
         cinfo = fm.Info(time=slots.T0, grid=None if cons_unset else gb, units="m", mask=cm)
         # helper level, both directions
@@ -294,7 +300,7 @@ class C18(Property):
 
     def coverage_gaps(self, counters, tier):
         need = ["compressions", "expansions", "prepare_calls", "prepare_flat_F_order", "accepts_calls", "link_exchanges",
-                "accept_expected_true", "accept_expected_false", "fixed_vs_fixed_relayout", "fixed_vs_fixed_grid_unset", "refused_mask_updates", "broadcastable_masks"]
+                "accept_expected_true", "accept_expected_false", "fixed_vs_fixed_relayout", "fixed_vs_fixed_grid_unset", "refused_mask_updates", "broadcastable_masks", "same_mask_object_on_both_sides"]
         return [f"{k} never observed" for k in need if not counters.get(k)]
 
 
